@@ -28,9 +28,11 @@ type Inode struct {
 	Data  []byte      `json:"data,omitempty"`
 	Mode  fs.FileMode `json:"mode"` // includes fs.ModeDir for directories
 	MTime int64       `json:"mtime,omitempty"`
+	Link  string      `json:"link,omitempty"` // symbolic link: the link text (Mode has fs.ModeSymlink)
 }
 
-func (i *Inode) IsDir() bool { return i.Mode&fs.ModeDir != 0 }
+func (i *Inode) IsDir() bool     { return i.Mode&fs.ModeDir != 0 }
+func (i *Inode) IsSymlink() bool { return i.Mode&fs.ModeSymlink != 0 }
 
 // Disk is everything that survives a simulated process.
 type Disk struct {
@@ -121,9 +123,33 @@ func (d *Disk) WriteRaw(p string, data []byte, perm fs.FileMode) {
 	d.Files[p] = &Inode{Data: append([]byte(nil), data...), Mode: perm}
 }
 
+// SymlinkRaw creates a symbolic link (harness side).
+func (d *Disk) SymlinkRaw(p, target string) {
+	p = filepath.Clean(p)
+	d.MkdirAllRaw(filepath.Dir(p), 0o755)
+	d.Files[p] = &Inode{Mode: fs.ModeSymlink | 0o777, Link: target}
+}
+
+// ResolveRaw follows symbolic links in the final component (harness side).
+func (d *Disk) ResolveRaw(p string) string {
+	p = filepath.Clean(p)
+	for hops := 0; hops < 10; hops++ {
+		n, ok := d.Files[p]
+		if !ok || !n.IsSymlink() {
+			return p
+		}
+		t := n.Link
+		if !filepath.IsAbs(t) {
+			t = filepath.Join(filepath.Dir(p), t)
+		}
+		p = filepath.Clean(t)
+	}
+	return p
+}
+
 // ReadRaw returns file content (nil,false when absent or a directory).
 func (d *Disk) ReadRaw(p string) ([]byte, bool) {
-	n, ok := d.Files[filepath.Clean(p)]
+	n, ok := d.Files[d.ResolveRaw(p)]
 	if !ok || n.IsDir() {
 		return nil, false
 	}
@@ -443,8 +469,28 @@ func (s *state) lookup(p string) (*Inode, syscall.Errno) {
 	return n, 0
 }
 
+// resolve is lookup that follows a symbolic link in the final component (relative link texts are relative to the
+// directory of the link, as in the kernel); it returns the path finally reached too.
+func (s *state) resolve(p string) (string, *Inode, syscall.Errno) {
+	for hops := 0; hops < 10; hops++ {
+		n, e := s.lookup(p)
+		if e != 0 {
+			return p, nil, e
+		}
+		if !n.IsSymlink() {
+			return p, n, 0
+		}
+		t := n.Link
+		if !filepath.IsAbs(t) {
+			t = filepath.Join(filepath.Dir(p), t)
+		}
+		p = filepath.Clean(t)
+	}
+	return p, nil, syscall.ELOOP
+}
+
 func (s *state) canWriteDir(p string) syscall.Errno {
-	n, e := s.lookup(p)
+	_, n, e := s.resolve(p)
 	if e != 0 {
 		return e
 	}
@@ -505,7 +551,7 @@ func Stat(name string) (fs.FileInfo, error) {
 	if dec.kind == Fail {
 		return nil, end(idx, dec, pathErr("stat", name, dec.errno))
 	}
-	n, e := st.lookup(p)
+	_, n, e := st.resolve(p)
 	if e != 0 {
 		return nil, end(idx, dec, pathErr("stat", name, e))
 	}
@@ -517,7 +563,40 @@ func Lstat(name string) (fs.FileInfo, error) {
 	if st == nil {
 		return os.Lstat(name)
 	}
-	return Stat(name)
+	p := st.abs(name)
+	idx, dec := begin("lstat", p, 0)
+	if dec.kind == Fail {
+		return nil, end(idx, dec, pathErr("lstat", name, dec.errno))
+	}
+	n, e := st.lookup(p)
+	if e != 0 {
+		return nil, end(idx, dec, pathErr("lstat", name, e))
+	}
+	fi := infoOf(p, n)
+	if n.IsSymlink() {
+		fi.size = int64(len(n.Link))
+	}
+	return fi, end(idx, dec, nil)
+}
+
+// Readlink is os.Readlink.
+func Readlink(name string) (string, error) {
+	if st == nil {
+		return os.Readlink(name)
+	}
+	p := st.abs(name)
+	idx, dec := begin("readlink", p, 0)
+	if dec.kind == Fail {
+		return "", end(idx, dec, pathErr("readlink", name, dec.errno))
+	}
+	n, e := st.lookup(p)
+	if e != 0 {
+		return "", end(idx, dec, pathErr("readlink", name, e))
+	}
+	if !n.IsSymlink() {
+		return "", end(idx, dec, pathErr("readlink", name, syscall.EINVAL))
+	}
+	return n.Link, end(idx, dec, nil)
 }
 
 func ReadFile(name string) ([]byte, error) {
@@ -596,7 +675,7 @@ func OpenFile(name string, flag int, perm fs.FileMode) (*File, error) {
 	if dec.kind == Fail {
 		return nil, end(idx, dec, pathErr("open", name, dec.errno))
 	}
-	n, e := st.lookup(p)
+	p, n, e := st.resolve(p) // a link is followed; a dangling one is created at its target with O_CREATE
 	switch {
 	case e == syscall.ENOENT && flag&os.O_CREATE != 0:
 		// does the parent exist?
@@ -1057,7 +1136,7 @@ func Chmod(name string, mode fs.FileMode) error {
 	if dec.kind == Fail {
 		return end(idx, dec, pathErr("chmod", name, dec.errno))
 	}
-	n, e := st.lookup(p)
+	_, n, e := st.resolve(p)
 	if e != 0 {
 		return end(idx, dec, pathErr("chmod", name, e))
 	}
@@ -1098,7 +1177,7 @@ func ReadDir(name string) ([]fs.DirEntry, error) {
 	if dec.kind == Fail {
 		return nil, end(idx, dec, pathErr("open", name, dec.errno))
 	}
-	n, e := st.lookup(p)
+	p, n, e := st.resolve(p)
 	if e != 0 {
 		return nil, end(idx, dec, pathErr("open", name, e))
 	}
@@ -1187,7 +1266,19 @@ func Symlink(oldname, newname string) error {
 	if st == nil {
 		return os.Symlink(oldname, newname)
 	}
-	return &os.LinkError{Op: "symlink", Old: oldname, New: newname, Err: syscall.EPERM}
+	p := st.abs(newname)
+	idx, dec := begin("symlink", p, 0)
+	if dec.kind == Fail {
+		return end(idx, dec, &os.LinkError{Op: "symlink", Old: oldname, New: newname, Err: dec.errno})
+	}
+	if _, e := st.lookup(p); e == 0 {
+		return end(idx, dec, &os.LinkError{Op: "symlink", Old: oldname, New: newname, Err: syscall.EEXIST})
+	}
+	if pe := st.canWriteDir(filepath.Dir(p)); pe != 0 {
+		return end(idx, dec, &os.LinkError{Op: "symlink", Old: oldname, New: newname, Err: pe})
+	}
+	st.disk.Files[p] = &Inode{Mode: fs.ModeSymlink | 0o777, Link: oldname, MTime: nowNS()}
+	return end(idx, dec, nil)
 }
 
 func SameFile(a, b fs.FileInfo) bool {
